@@ -146,8 +146,23 @@ type env struct {
 	thor    bool
 	count   struct {
 		sound, soundRej, fee, enc, encVerdict, block, scripts vk.Counter
+		e2e, stale, countFam                                  vk.Counter
 		states                                                *vk.Set
 	}
+	// extensions
+	castMTB  *conflictCast
+	scMTB    *chainx.Scenario
+	scCom    *chainx.Scenario
+	mtbNames []string
+	comNames []string
+}
+
+// scenario of a state.
+func (e *env) scOf(st *state) *chainx.Scenario {
+	if st.Sc != nil {
+		return st.Sc
+	}
+	return e.sc
 }
 
 // out counts an outcome class of a sub-check (all of them go to the evidence,
@@ -176,6 +191,7 @@ func newEnv(r *vk.Run) (*env, error) {
 	tpls = append(tpls, chainx.TplByName("policy-fee+tx", "block-account3")...)
 	tpls = append(tpls, conflictsTpl(e.cast), execFeeTpl("c07-exec-min", 1), execFeeTpl("c07-exec-frac", 300001))
 	tpls = append(tpls, chainx.TplByName("designate-oracle", "oracle-request")...)
+	tpls = append(tpls, extTpls()...)
 	sc, err := chainx.NewScenario(famSingle(protoExtra), 0, tpls)
 	if err != nil {
 		return nil, fmt.Errorf("preamble: %w", err)
@@ -190,6 +206,8 @@ func newEnv(r *vk.Run) (*env, error) {
 		{Name: "exec-frac", Hist: []int{tSetup, tExecFrac}},
 		{Name: "oracle", Hist: []int{tSetup, tDesigOracle, tOracleReq}, Oracle: true},
 	}
+	hashUA, hashUB = sc.World.UA.Hash, sc.World.UB.Hash
+	e.st = append(e.st, extStates()...)
 	if err := sc.Grow([]int{tSetup}); err != nil {
 		return nil, fmt.Errorf("setup block: %w", err)
 	}
@@ -202,6 +220,12 @@ func newEnv(r *vk.Run) (*env, error) {
 				return nil, fmt.Errorf("state %s: %w", s.Name, err)
 			}
 		}
+	}
+	if err := e.mtbStates(); err != nil {
+		return nil, err
+	}
+	if err := e.committeeStates(); err != nil {
+		return nil, err
 	}
 	return e, nil
 }
@@ -227,7 +251,7 @@ type runner struct {
 }
 
 func (e *env) newRunner(st *state) (*runner, error) {
-	n, _, err := e.sc.RefNode(st.Hist)
+	n, _, err := e.scOf(st).RefNode(st.Hist)
 	if err != nil {
 		return nil, err
 	}
@@ -258,6 +282,7 @@ func (rn *runner) mkFacts() *facts {
 		Blocked:        rn.st.Blocked,
 		OnChain:        map[util.Uint256]bool{},
 		Named:          map[util.Uint256]map[util.Uint160]bool{},
+		NamedAt:        map[util.Uint256]map[util.Uint160]uint32{},
 		Committee:      rn.n.Committee.ScriptHash(),
 		Accts:          knownAccts(rn.n),
 	}
@@ -268,31 +293,35 @@ func (rn *runner) mkFacts() *facts {
 	}
 	f.Balance = func(h util.Uint160) int64 { return bc.GetUtilityTokenBalance(h, util.Uint160{}).Int64() }
 	// the ledger content, from the blocks the scenario fed to the replica
-	blocks, _ := rn.e.sc.Blocks(rn.st.Hist)
+	blocks, _ := rn.e.scOf(rn.st).Blocks(rn.st.Hist)
 	for _, bb := range blocks {
 		b, err := chainx.DecodeBlock(bb, false)
 		if err != nil {
 			panic(err)
 		}
+		f.Blocks = append(f.Blocks, b.Hash())
 		for _, tx := range b.Transactions {
 			f.OnChain[tx.Hash()] = true
 			for _, a := range tx.GetAttributes(transaction.ConflictsT) {
 				h := a.Value.(*transaction.Conflicts).Hash
 				if f.Named[h] == nil {
 					f.Named[h] = map[util.Uint160]bool{}
+					f.NamedAt[h] = map[util.Uint160]uint32{}
 				}
 				for _, s := range tx.Signers {
 					f.Named[h][s.Account] = true
+					f.NamedAt[h][s.Account] = b.Index // the newest naming block wins
 				}
 			}
 		}
 	}
+	rn.extFacts(f)
 	return f
 }
 
 // lastOnChain returns a transaction of the newest block with transactions.
 func (rn *runner) lastOnChain() *transaction.Transaction {
-	blocks, _ := rn.e.sc.Blocks(rn.st.Hist)
+	blocks, _ := rn.e.scOf(rn.st).Blocks(rn.st.Hist)
 	for i := len(blocks) - 1; i >= 0; i-- {
 		b, _ := chainx.DecodeBlock(blocks[i], false)
 		if len(b.Transactions) > 0 {
@@ -438,10 +467,16 @@ func TestCheck(t *testing.T) {
 		scriptCov = e.runScripts()
 	}
 	t1 := time.Now()
-	var attrBlockCov map[string]any
+	var attrBlockCov, staleCov, countCov map[string]any
 	if want("block") {
 		blockCov = e.runBlocks()
 		attrBlockCov = e.runAttrBlocks()
+	}
+	if want("stale") {
+		staleCov = e.runStale()
+	}
+	if want("count") {
+		countCov = e.runCount()
 	}
 	t2 := time.Now()
 	if want("fee") {
@@ -453,8 +488,8 @@ func TestCheck(t *testing.T) {
 	pprof.StopCPUProfile()
 	cov := map[string]any{
 		"states":                                 e.count.states.Len(),
-		"transitions":                            int(e.count.sound.Get() + e.count.fee.Get() + e.count.encVerdict.Get() + e.count.block.Get()),
-		"traces_validated_against_impl":          int(e.count.sound.Get() + e.count.fee.Get() + e.count.encVerdict.Get() + e.count.block.Get()),
+		"transitions":                            int(e.count.sound.Get() + e.count.fee.Get() + e.count.encVerdict.Get() + e.count.block.Get() + e.count.e2e.Get() + e.count.stale.Get() + e.count.countFam.Get()),
+		"traces_validated_against_impl":          int(e.count.sound.Get() + e.count.fee.Get() + e.count.encVerdict.Get() + e.count.block.Get() + e.count.e2e.Get() + e.count.stale.Get() + e.count.countFam.Get()),
 		"sound_submissions":                      int(e.count.sound.Get()),
 		"sound_rejections_checked_for_no_effect": int(e.count.soundRej.Get()),
 		"fee_threshold_transactions":             int(e.count.fee.Get()),
@@ -467,6 +502,11 @@ func TestCheck(t *testing.T) {
 		"fee":                                    feeCov,
 		"proposable":                             blockCov,
 		"proposable_attribute_boundaries":        attrBlockCov,
+		"proposable_after_block_arrival":         staleCov,
+		"proposable_after_block_cases":           int(e.count.stale.Get()),
+		"proposable_count_varint":                countCov,
+		"proposable_count_varint_cases":          int(e.count.countFam.Get()),
+		"sound_end_to_end_blocks":                int(e.count.e2e.Get()),
 		"outcomes_by_subcheck":                   e.outs,
 		"findings_not_listed":                    e.f.dropped,
 		"rule":                                   "state = (sub-check, chain state or family, transaction content / pool content); every element of the stated finite sets is executed on a real replica",
